@@ -63,3 +63,63 @@ impl Pair {
         x + y
     }
 }
+
+// ---- PN1 controls: compiler-inserted checks the interval analysis must / must not discharge ----
+pub fn pn1_div_unguarded(a: usize, b: usize) -> usize {
+    a / b
+}
+
+pub fn pn1_div_guarded(a: usize, b: usize) -> usize {
+    if b != 0 { a / b } else { 0 }
+}
+
+pub fn pn1_index_unguarded(h: &[u32; 4], ms: usize) -> u32 {
+    let idx = (usize::BITS - ms.leading_zeros()) as usize;
+    h[idx]
+}
+
+pub fn pn1_index_clamped(h: &[u32; 4], ms: usize) -> u32 {
+    let idx = (usize::BITS - ms.leading_zeros()) as usize;
+    h[idx.min(3)]
+}
+
+pub fn pn1_index_off_by_one(h: &[u32; 4], ms: usize) -> u32 {
+    let idx = (usize::BITS - ms.leading_zeros()) as usize;
+    h[idx.min(4)]
+}
+
+pub fn pn1_sub_unguarded(issued: usize, left: usize) -> usize {
+    issued - left
+}
+
+pub fn pn1_sub_guarded(issued: usize, left: usize) -> usize {
+    if left <= issued { issued - left } else { 0 }
+}
+
+// the guard is about the previous element: must not be discharged (value ids are redefined per iteration)
+pub fn pn1_stale_guard(xs: &[usize], h: &[u32; 4]) -> u32 {
+    let mut acc = 0u32;
+    let mut ok = false;
+    let mut i;
+    for &x in xs {
+        i = x;
+        if ok {
+            acc = acc.wrapping_add(h[i]);
+        }
+        ok = i < 4;
+    }
+    acc
+}
+
+// the guard is about the current element: discharged
+pub fn pn1_fresh_guard(xs: &[usize], h: &[u32; 4]) -> u32 {
+    let mut acc = 0u32;
+    for &x in xs {
+        let i = x;
+        let ok = i < 4;
+        if ok {
+            acc = acc.wrapping_add(h[i]);
+        }
+    }
+    acc
+}
